@@ -31,7 +31,7 @@ GdArgs == << [name |-> "a", type |-> Nm("Int"), hasDefault |-> FALSE, default |-
 NoFields == [x \in {} |-> 0]
 Leafish(k) == [kind |-> k, fields |-> NoFields, possible |-> {}, possibleSeq |-> <<>>, values |-> <<>>, way |-> ""]
 
-TFields == [ s |-> Rs(Nm("String")), sn |-> Rs(Nn(Nm("String"))), i |-> Rs(Nm("Int")), d |-> Df(Nm("String")),
+TFields == [ csn |-> Rs(Nn(Nm("Cs"))), s |-> Rs(Nm("String")), sn |-> Rs(Nn(Nm("String"))), i |-> Rs(Nm("Int")), d |-> Df(Nm("String")),
              o |-> Rs(Nm("T")), on |-> Rs(Nn(Nm("T"))), lo |-> Rs(Li(Nm("T"))), lnn |-> Rs(Li(Nn(Nm("T")))),
              p |-> Rs(Nm("P")), e |-> Rs(Nm("E")), f |-> RsA(Nm("String"), FArgs), g |-> RsA(Nm("String"), GArgs), h |-> RsA(Nm("String"), HArgs) ]
 
@@ -45,7 +45,8 @@ TypesExec == [
                  s |-> Rs(Nm("String")), sn |-> Rs(Nn(Nm("String"))), i |-> Rs(Nm("Int")), e |-> Rs(Nm("E")),
                  le |-> Rs(Li(Nm("E"))), ls |-> Rs(Li(Nn(Nm("String")))), fl |-> Rs(Nm("Float")), lfl |-> Rs(Li(Nn(Nm("Float")))), idf |-> Rs(Nm("ID")), bo |-> Rs(Nm("Boolean")),
                  f |-> RsA(Nm("String"), FArgs), g |-> RsA(Nm("String"), GArgs), h |-> RsA(Nm("String"), HArgs),
-                 fz |-> RsA(Nm("String"), ZArgs), gd |-> RsA(Nm("String"), GdArgs) ]],
+                 fz |-> RsA(Nm("String"), ZArgs), gd |-> RsA(Nm("String"), GdArgs),
+                 cs |-> Rs(Nm("Cs")), csn |-> Rs(Nn(Nm("Cs"))), lcs |-> Rs(Li(Nn(Nm("Cs")))) ]],
   T |-> [kind |-> "OBJECT", possible |-> {"T"}, possibleSeq |-> <<"T">>, values |-> <<>>, way |-> "key", fields |-> TFields],
   P |-> [kind |-> "INTERFACE", possible |-> {"A", "B"}, possibleSeq |-> <<"A", "B">>, values |-> <<>>, way |-> "", fields |-> PFields],
   A |-> [kind |-> "OBJECT", possible |-> {"A"}, possibleSeq |-> <<"A">>, values |-> <<>>, way |-> "key",
@@ -60,7 +61,7 @@ TypesExec == [
   Sz |-> [kind |-> "ENUM", possible |-> {}, possibleSeq |-> <<>>, values |-> <<"LARGE", "XLARGE", "XXLARGE", "XLARGER">>, way |-> "", fields |-> NoFields],
   Mutation |-> [kind |-> "OBJECT", possible |-> {"Mutation"}, possibleSeq |-> <<"Mutation">>, values |-> <<>>, way |-> "key",
     fields |-> [ m1 |-> Rs(Nm("T")), m2 |-> Rs(Nn(Nm("T"))), m3 |-> Rs(Nm("String")), m4 |-> Rs(Nn(Nm("String"))), ml |-> Rs(Li(Nm("T"))),
-                 mg |-> RsA(Nm("String"), GArgs), mgn |-> RsA(Nn(Nm("String")), GArgs) ]],
+                 mg |-> RsA(Nm("String"), GArgs), mgn |-> RsA(Nn(Nm("String")), GArgs), mcs |-> Rs(Nn(Nm("Cs"))) ]],
   Subscription |-> [kind |-> "OBJECT", possible |-> {"Subscription"}, possibleSeq |-> <<"Subscription">>, values |-> <<>>, way |-> "key",
     fields |-> [ ev |-> RsA(Nm("T"), FArgs), evs |-> Rs(Nm("String")) ]],
   In |-> [kind |-> "INPUT", fields |-> NoFields, possible |-> {}, possibleSeq |-> <<>>, values |-> <<>>, way |-> "", inputs |-> InFields],
@@ -68,7 +69,9 @@ TypesExec == [
   Int     |-> Leafish("SCALAR"),
   Boolean |-> Leafish("SCALAR"),
   ID      |-> Leafish("SCALAR"),
-  Float   |-> Leafish("SCALAR") ]
+  Float   |-> Leafish("SCALAR"),
+  \* a custom scalar whose output coercion turns the blank string into null and prefixes every other text with "cs:" (GQL!OutC)
+  Cs      |-> Leafish("SCALAR") ]
 
 RootsExec == [query |-> "Query", mutation |-> "Mutation", subscription |-> "Subscription"]
 =============================================================================
